@@ -5,6 +5,7 @@
 #include <atomic>
 namespace atomics = std;
 namespace cds { namespace atomicity {
+    struct event_counter { typedef size_t value_type; size_t v; event_counter() : v(0) {} size_t get() const { return v; } size_t operator++() { return ++v; } size_t operator=( size_t n ) { v = n; return n; } operator size_t() const { return v; } };
     struct empty_item_counter { typedef size_t counter_type; size_t value() const { return 0; } operator size_t() const { return 0; }
         size_t inc() { return 0; } size_t dec() { return 0; } size_t operator++() { return 0; } size_t operator++(int) { return 0; }
         size_t operator--() { return 0; } size_t operator--(int) { return 0; } void reset() {} };
